@@ -43,6 +43,7 @@ def run(ctx):
     judge, jlog = common.build_judge()
     known_ids = {e["id"] for e in common.load_known_findings(PID)}
     ncorpus = navlib.replay_corpus(ctx, PID, exe, judge)
+    witness_state = navlib.replay_known(ctx, PID, exe, CLASS_DOC)
 
     camp = navlib.Campaign(ctx, exe, judge, METHODS, "c12")
     thorough = ctx.thorough()
@@ -118,6 +119,7 @@ def run(ctx):
         "oracle_checked": checked,
         "oracle_failures": len(fails),
         "known_finding_hits": {k: len(v) for k, v in sorted(known.items())},
+        "known_finding_witness_still_fails": witness_state,
         "traces_validated_against_impl": camp.compared(),
         "kernel_judge_cases": nk,
         "correspondence_mismatches": len(camp.mismatches) + len(kfail) + len(camp.model_errors),
